@@ -28,7 +28,15 @@ fn gen_base(rng: &mut Rng) -> (Scenario, String) {
     let label = if rng.chance(1, 5) { "utf-8" } else { rng.pick(wl::ENCODING_LABELS) };
     let meta = rng.chance(1, 3);
     let long_text = rng.chance(1, 6);
-    let d = wl::enc_doc(rng, label, &wl::EncOpts { long_text, meta, bom_like: true });
+    let mut d = wl::enc_doc(rng, label, &wl::EncOpts { long_text, meta, bom_like: true });
+    if !meta && rng.chance(1, 3) {
+        // a tag with odd attribute names (non-ASCII, BOM-like prefixes) somewhere in the text
+        let enc = enc_of(label);
+        let mut t = wl::encode_lossy_drop(enc, &wl::gen_start_tag(rng, "p"));
+        wl::bomify(rng, &mut t);
+        d.bytes.extend(t);
+        d.bytes.extend(b"x</p>");
+    }
     let mut sc = Scenario::new(d.bytes);
     sc.encoding = label.to_string();
     sc.adjust_charset = meta;
@@ -277,6 +285,28 @@ impl Property for C13 {
                             return Ok(Err(f));
                         }
                         st.bump("c13.text_nodes_decoded");
+                    }
+                }
+                Unit::Element { name, name_pc, attrs, loc, .. } => {
+                    // names: decoded in the document encoding, lower-cased per character
+                    let e = enc_at(loc.0);
+                    let r = super::c16::parse_tag(&doc[loc.0..loc.1]);
+                    let dn = e.decode_without_bom_handling(&r.name).0.into_owned();
+                    if *name_pc != dn || *name != dn.to_ascii_lowercase() {
+                        return Ok(Err(Fail::new("C13.decode", format!("tag name at {loc:?} in {}: handler read {name:?}/{name_pc:?}, decoding gives {dn:?}", e.name()))));
+                    }
+                    if r.attrs.len() == attrs.len() {
+                        for (a, (rn, rv)) in attrs.iter().zip(r.attrs.iter()) {
+                            let dn = e.decode_without_bom_handling(rn).0.into_owned();
+                            let dv = e.decode_without_bom_handling(rv).0.into_owned();
+                            if a.name_pc != dn || a.name != dn.to_ascii_lowercase() || a.value != dv {
+                                return Ok(Err(Fail::new(
+                                    "C13.decode",
+                                    format!("attribute of tag {loc:?} in {}: handler read name {:?}/{:?} value {:?}; whole-buffer decoding gives {dn:?} / {dv:?}", e.name(), a.name, a.name_pc, a.value),
+                                )));
+                            }
+                        }
+                        st.bump("c13.tags_decoded");
                     }
                 }
                 Unit::Comment { text, loc } => {
